@@ -91,6 +91,10 @@ type CondDesc struct {
 	XDep  Dep
 	Const uint64
 	Neg   bool // logical negation applied
+	// OneBit: X is zero everywhere except for one bit that is an exact copy of
+	// instruction bit Bit, so X == 0 exactly when that instruction bit is 0.
+	OneBit bool
+	Bit    int
 }
 
 type StrV string
